@@ -63,7 +63,8 @@ class C11:
             "that are present but not yet valid. Every history is also fed, with its same-cycle operations permuted and split, to a second reduction. An "
             "always-awake probe reads the result in every engine cycle. Oracle: after every cycle the result is invalid / the zero (no live element), "
             "the element / combine(element, zero) (one), the fold over exactly the valid elements (two or more; zero not involved); the permuted "
-            "history gives the same result in every cycle. non-trivial = the live element count changed at least twice; distinct = distinct histories")
+            "history gives the same result in every cycle. non-trivial = the live element count changed at least twice; distinct = distinct histories"
+            " Round 3: 8% of the dictionary histories hold 65-140 live entries at once, are shrunk to a handful and updated again.")
     assumptions = ["'at every tick' is read as 'after every engine cycle'; extra ticks of the result with an unchanged value are allowed (documented: a re-point is a tick)"]
 
     def gen(self, seed):
